@@ -99,7 +99,8 @@ theorem SubstCert.inPort_pin (j x : Nat) (hin : j ∈ sh.inPorts) (hm : map.getD
     have hlt : ll < h'.net.lines.size := by
       have := (ct.hwf.fwdIn c ct.hc _ ll hll).1
       rw [ct.lsize]; omega
-    have b := (ct.wf'.back ll hlt).2.2.2
+    have b : (h'.net.node (h'.net.line ll).reader).ins.getD (h'.net.line ll).rpin none = some ll :=
+      ct.backR ll hlt (Or.inr (ct.hwf.ptsBack_of_pin c _ ll ct.hc hll))
     rw [e1, e2] at b
     rcases inTarget_cases htg with ⟨h1, _⟩ | ⟨_, hmr, hrp⟩
     · omega
